@@ -516,11 +516,16 @@ func runC16(w *c16World) ([]string, error) {
 		close(stopBusy)
 		bw.Wait()
 		busyFor := time.Since(busyFrom)
+		// what was handed to the node during the busy phase may still be on its way to the wire (one more goroutine
+		// per channel has to get its turn): give it two periods before counting - the beats of that extra time only
+		// make the verdict milder
+		time.Sleep(2*w.period + 20*time.Millisecond)
 		for c, p := range pipes {
 			hbs, _, _, _ := count(p)
 			got := len(hbs) - busyBeats[c]
 			due := int(busyFor / w.period)
-			if got < due/2-1 && control >= due*3/4 && !stalls.StalledBetweenOver(busyFrom, time.Now(), w.period/2) {
+			// far fewer than were due AND far fewer than the control managed in the same time on the same machine
+			if got < due/2-1 && got < control/3 && control >= due*3/4 && !stalls.StalledBetweenOver(busyFrom, time.Now(), w.period/2) {
 				return nil, fmt.Errorf("channel %d: %d heartbeats in %v while the application was writing (period %v, %d were due; a control goroutine doing one write per period completed %d rounds): beats are skipped when the node is busy", c, got, busyFor, w.period, due, control)
 			}
 		}
